@@ -954,6 +954,8 @@ func (h *harness) acceptance() {
 	}
 }
 
+func firstWordIfErr(s string) string { return s }
+
 func firstWord(s string) string {
 	if i := strings.IndexByte(s, ' '); i >= 0 {
 		return s[:i]
@@ -1135,6 +1137,17 @@ func (h *harness) roundTrips(s sgn, signed *types.Transaction, t txv, want commo
 		if back.Hash() != hash || err != nil || a != want {
 			c.Violate("rlp-roundtrip/"+vh.Hex(enc), "hash or sender changed by an RLP round trip", map[string]string{"rlp": vh.Hex(enc), "signer": s.tok})
 		}
+	}
+	// directed: the recipient given as an empty LIST instead of the empty string must not decode
+	if alt, err := rlp.EncodeToBytes([]interface{}{t.nonce, t.price, t.gas, []interface{}{}, t.value, t.data, t.v, t.r, t.s}); err == nil {
+		o := "err"
+		tx3 := new(types.Transaction)
+		if err := rlp.DecodeBytes(alt, tx3); err == nil {
+			o = "ok " + fromTx(tx3).token()
+			c.Violate("tx-decodes-noncanonical-recipient/"+vh.Hex(alt), "a transaction whose recipient is encoded as an empty list decodes (as a contract creation)", map[string]string{"rlp": vh.Hex(alt)})
+		}
+		c.Eval("decode/recipient-as-empty-list", "")
+		c.Correspond("rlp.DecodeBytes(tx)~decode_tx", vh.Hex(alt), o, firstWordIfErr(h.m.Ask("decode_tx "+vh.Hex(alt))))
 	}
 	// JSON
 	c.Eval("roundtrip/json", "")
